@@ -17,9 +17,23 @@ theorem freshReq_newReq (kind stars group sp remaining items nc)
     ⟨rfl, rfl, rfl, rfl, fun h => by simp [Req.cnt, newReq, h1 h], fun h => h2 h⟩, Or.inl rfl⟩
 
 /-- registering a request whose own books are balanced -/
-theorem tame_register (p : Pool) (r : Req) (hr : FreshReq r) : Tame p (p.register r) := by
+theorem tame_register (p : Pool) (r : Req) (hr : FreshReq r) (hs : r.cancelSnap = none := by rfl) : Tame p (p.register r) := by
   refine ⟨⟨rfl, rfl, rfl, rfl, rfl, rfl, rfl, fun h => h, ?_, fun _ tk' h => ⟨tk', h, rfl⟩, rfl,
-    fun h => h.of_soft rfl rfl rfl (fun _ tk' h => ⟨tk', h, rfl⟩), fun h => h.of_eq rfl rfl, rfl⟩, by simp [register, emitRef], ?_⟩
+    fun h => h.of_soft rfl rfl rfl (fun _ tk' h => ⟨tk', h, rfl⟩), fun h => h.of_eq rfl rfl, rfl⟩, by simp [register, emitRef], ?_, ?_⟩
+  rotate_left 2
+  · intro E hk
+    refine hk.frame (fun _ x => x) ?_
+    intro m r' h
+    have h' : (p.reqs ++ [r])[m]? = some r' := h
+    rw [List.getElem?_append] at h'
+    split at h'
+    · exact Or.inl ⟨r', h', CSame.refl r'⟩
+    · right
+      have : m - p.reqs.length = 0 := by
+        rcases Nat.lt_or_ge (m - p.reqs.length) 1 with h1 | h1
+        · omega
+        · rw [List.getElem?_eq_none (by simpa using h1)] at h'; cases h'
+      rw [this] at h'; simp at h'; subst h'; exact hs
   · show (flat (addGroupIfMissing p.groups r.group)).Sublist (flat p.groups)
     rw [flat_addGroupIfMissing]; exact List.Sublist.refl _
   · intro m r' h
@@ -70,7 +84,7 @@ theorem tame_cancelGroupMetas (p : Pool) (g) : Tame p (p.cancelGroupMetas g) := 
   simp only
   refine Tame.trans (tame_foldl _ _ (fun p m => tame_metaCancel p m) p) (tame_of_map _ _ _ rfl rfl rfl ?_)
   intro x
-  split <;> exact ⟨rfl, rfl, rfl, Nat.le_refl _, fun h => h, rfl, Or.inl rfl, fun h => h, fun h => h, fun _ => Nat.le_refl _⟩
+  split <;> exact ⟨rfl, rfl, rfl, Nat.le_refl _, fun h => h, rfl, Or.inl rfl, fun h => h, fun h => h, fun _ => rfl, fun _ => Nat.le_refl _⟩
 
 theorem tame_cancelGroupBody (p p' : Pool) (g ids order) (h : p.cancelGroupBody g ids order = some p') : Tame p p' := by
   unfold cancelGroupBody at h
